@@ -10,14 +10,19 @@ namespace MetadorModel.Bridge.Diff
 open MetadorModel MetadorModel.Diff MetadorModel.DiffPy
 
 /-- `DiffNode.compare(prev, curr, path).nodes()`: the translated functions composed give the
-listing of the model. -/
-theorem gen_nodes_compare (fuel fuel' : Nat) (prev curr : Option DirTree) (path : Path)
+listing of the model, whatever the iteration order of sets and input dicts. -/
+theorem gen_nodes_compare (ord : IterOrd) (hord : PermOrd ord) (fuel fuel' : Nat)
+    (prev curr : Option DirTree) (path : Path)
     (hp : wfO prev) (hc : wfO curr) (hd : max (depthO prev) (depthO curr) < fuel) :
-    Gen.Diff.compare fuel prev curr path = .ok (compareAt path prev curr) ∧
-    ∀ d, compareAt path prev curr = some d → ndepth d < fuel' →
-      ∃ l, Gen.Diff.nodes fuel' d = .ok l ∧ l.map DNode.rec' = Diff.nodes d := by
-  refine ⟨gen_compare fuel prev curr path hp hc hd, fun d h hd' => ?_⟩
-  have := gen_nodes fuel' d hd'
-  rwa [canon_sorted d (sortedD_compareAt hp hc path h)] at this
+    ∃ r, Gen.Diff.compare ord fuel prev curr path = .ok r ∧ r.map canon = compareAt path prev curr ∧
+      ∀ d, r = some d → ndepth d < fuel' →
+        ∃ l, Gen.Diff.nodes fuel' d = .ok l ∧ l.map DNode.rec' = nodesO (compareAt path prev curr) := by
+  obtain ⟨r, h1, h2⟩ := gen_compare ord hord fuel prev curr path hp hc hd
+  refine ⟨r, h1, h2, fun d hr hd' => ?_⟩
+  obtain ⟨l, h3, h4⟩ := gen_nodes fuel' d hd'
+  refine ⟨l, h3, ?_⟩
+  subst hr
+  rw [h4, ← h2]
+  rfl
 
 end MetadorModel.Bridge.Diff
